@@ -15,6 +15,7 @@ import (
 	"reflect"
 	"regexp"
 	"sort"
+	"strconv"
 	"strings"
 	"testing"
 	"time"
@@ -154,6 +155,40 @@ func c20GenTree(r *vf.Rand, p []c20Seg, depth int, kind int, out *[]c20Leaf) {
 
 		for i := 0; i < n; i++ {
 			c20GenTree(r, c20Append(p, c20Seg{Idx: i, Is: true}), depth+1, ek, out)
+		}
+	}
+}
+
+// c20GenMechLike: [{id, type, config: {k: v, r: {s: v}}} ...] — most leaves of a real configuration
+// have the name shape <list>_N_CONFIG_<a>[_<b>]
+func c20GenMechLike(r *vf.Rand, p []c20Seg, out *[]c20Leaf) {
+	for i, n := 0, r.Range(1, 3); i < n; i++ {
+		e := c20Append(p, c20Seg{Idx: i, Is: true})
+		*out = append(*out, c20Leaf{Path: c20Append(e, c20Seg{Key: "id"}), Text: vf.Pick(r, c20Texts)})
+
+		if r.Intn(4) != 0 {
+			*out = append(*out, c20Leaf{Path: c20Append(e, c20Seg{Key: "type"}), Text: vf.Pick(r, c20Texts)})
+		}
+
+		if r.Intn(4) != 0 {
+			cfg := c20Append(e, c20Seg{Key: "config"})
+			used := map[string]bool{}
+
+			for j, m := 0, r.Range(1, 3); j < m; j++ {
+				k := vf.Pick(r, c20SubKeys)
+				if used[k] {
+					continue
+				}
+
+				used[k] = true
+
+				if r.Intn(3) == 0 {
+					sub := c20Append(cfg, c20Seg{Key: k})
+					*out = append(*out, c20Leaf{Path: c20Append(sub, c20Seg{Key: vf.Pick(r, []string{"s", "t", "url"})}), Text: vf.Pick(r, c20Texts)})
+				} else {
+					*out = append(*out, c20Leaf{Path: c20Append(cfg, c20Seg{Key: k}), Text: vf.Pick(r, c20Texts)})
+				}
+			}
 		}
 	}
 }
@@ -371,6 +406,106 @@ func c20ShapeF3(vars []c20Var) bool {
 	return false
 }
 
+// c20NarrowF4: the C20-F4 shape where the defect shows (the evaluator's guard_F4n, used here only to
+// size the environment): an index followed by two or more name segments, and the list element is a map
+// neither in the file nor in the defaults, or another variable shares element and first name segment
+func c20NarrowF4(c c20Case) bool {
+	canon := func(parts []string) []string {
+		out := make([]string, len(parts))
+
+		for i, p := range parts {
+			if c20IsNum.MatchString(p) {
+				n, _ := strconv.Atoi(p)
+				out[i] = "#" + strconv.Itoa(n)
+			} else {
+				out[i] = p
+			}
+		}
+
+		return out
+	}
+
+	leafParts := func(l c20Leaf) []string {
+		out := make([]string, len(l.Path))
+
+		for i, s := range l.Path {
+			if s.Is {
+				out[i] = "#" + strconv.Itoa(s.Idx)
+			} else {
+				out[i] = s.Key
+			}
+		}
+
+		return out
+	}
+
+	hasPrefix := func(parts, pre []string) bool {
+		if len(parts) < len(pre) {
+			return false
+		}
+
+		for i := range pre {
+			if parts[i] != pre[i] {
+				return false
+			}
+		}
+
+		return true
+	}
+
+	var all [][]string
+	for _, v := range c.Env {
+		all = append(all, canon(strings.Split(c20Norm(v.Name), ".")))
+	}
+
+	for ai, parts := range all {
+		for j, p := range parts {
+			if !strings.HasPrefix(p, "#") {
+				continue
+			}
+
+			n := 0
+			for _, q := range parts[j+1:] {
+				if strings.HasPrefix(q, "#") {
+					break
+				}
+
+				n++
+			}
+
+			if n < 2 {
+				continue
+			}
+
+			elem := parts[:j+1]
+			isMap := false
+
+			for _, src := range [][]c20Leaf{c.File, c.Defaults} {
+				for _, l := range src {
+					lp := leafParts(l)
+					if hasPrefix(lp, elem) && len(lp) > len(elem) && !strings.HasPrefix(lp[len(elem)], "#") {
+						isMap = true
+					}
+				}
+			}
+
+			if !isMap {
+				return true
+			}
+
+			site := append(append([]string{}, elem...), parts[j+1])
+
+			for bi, other := range all {
+				if bi != ai && hasPrefix(other, site) {
+					return true
+				}
+			}
+		}
+	}
+
+	return false
+}
+
 func c20ShapeF4(vars []c20Var) bool {
 	for _, v := range vars {
 		parts := strings.Split(c20Norm(v.Name), ".")
@@ -433,7 +568,18 @@ func c20Gen(r *vf.Rand) c20Case {
 			kind = 1
 		}
 
-		c20GenTree(r, []c20Seg{{Key: f}}, 1, kind, &leaves)
+		switch {
+		case (f == "l" || f == "a") && r.Intn(100) < 45:
+			// the shape of the real configuration: a list of {id, type, config: {...}} (mechanisms)
+			c20GenMechLike(r, []c20Seg{{Key: f}}, &leaves)
+		case f == "x9" && r.Intn(100) < 30:
+			// a long list of scalars: indices >= 10
+			for i, n := 0, r.Range(9, 13); i < n; i++ {
+				leaves = append(leaves, c20Leaf{Path: []c20Seg{{Key: f}, {Idx: i, Is: true}}, Text: vf.Pick(r, c20Texts)})
+			}
+		default:
+			c20GenTree(r, []c20Seg{{Key: f}}, 1, kind, &leaves)
+		}
 	}
 
 	// defaults: container-valued top-level fields only (a scalar default would be
@@ -494,8 +640,10 @@ func c20Gen(r *vf.Rand) c20Case {
 
 	// the model enumerates iteration orders only for small environments
 	limit := 9
-	if c20ShapeF4(c.Env) {
+	if c20NarrowF4(c) {
 		limit = 3
+	} else if c20ShapeF4(c.Env) {
+		limit = 5
 	} else if c20ShapeF3(c.Env) || mode == "malformed" {
 		limit = 5
 	}
